@@ -36,6 +36,9 @@ int vorbis_synthesis(vorbis_block *vb,ogg_packet *op){
 
   /* first things first.  Make sure decode is ready */
   _vorbis_block_ripcord(vb);
+  /* the previous packet's PCM lived in the storage just reaped; a caller
+     that submits the block after a rejected packet must not find it */
+  vb->pcm=NULL;
   oggpack_readinit(opb,op->packet,op->bytes);
 
   /* Check the packet type */
@@ -100,6 +103,9 @@ int vorbis_synthesis_trackonly(vorbis_block *vb,ogg_packet *op){
 
   /* first things first.  Make sure decode is ready */
   _vorbis_block_ripcord(vb);
+  /* the previous packet's PCM lived in the storage just reaped; a caller
+     that submits the block after a rejected packet must not find it */
+  vb->pcm=NULL;
   oggpack_readinit(opb,op->packet,op->bytes);
 
   /* Check the packet type */
